@@ -79,6 +79,30 @@ def damaged(rng, hosts, per_host=6):
     return out
 
 
+# characters that str.splitlines() / str.isspace() treat as line or space, and that are ordinary characters to a C lexer
+PAGE_BREAKS = ["\f", "\v", "\x1c", "\x1d", "\x1e", "\x85", "\u2028", "\u2029"]
+
+
+def damaged_tail(rng, hosts, per_host=2):
+    """(name, text, what): comments holding such characters, and an over-long comment line after them, at the END of a
+    host program (so that a line counted once too often falls outside the file)"""
+    out = []
+    for name, text in hosts:
+        for _ in range(per_host):
+            brk = [rng.choice(PAGE_BREAKS) for _ in range(rng.randint(1, 4))]
+            words = ["page"] * (len(brk) + 1)
+            inner = "".join(w + " " + b + " " for w, b in zip(words, brk)) + "end"
+            shape = rng.choice(["block", "line", "oneline"])
+            if shape == "block":
+                tail = "/*\n** " + inner + "\n** " + "x" * 90 + "\n*/\n"
+            elif shape == "line":
+                tail = "// " + inner + "\n// " + "y" * 90 + "\n"
+            else:
+                tail = "/* " + inner + " */\n/* " + "z" * 90 + " */\n"
+            out.append((name, text.rstrip("\n") + "\n" + tail, "page-breaks-in-" + shape))
+    return out
+
+
 LEXICAL_SNIPPETS = [
     "int\tmain(void)\n{\n\treturn ('\\q\n);\n}\n",
     "char\t*g_s = \"ab\\qcd;\n",
